@@ -106,6 +106,7 @@ options:
   wrap_fortran: false
 declarations:
 - decl: enum Color { RED, GREEN = 3, BLUE }
+- decl: enum Level { HIGH = 10, NONE = 0, LOW }
 - decl: class Cls
   declarations:
   - decl: Cls(int id)
@@ -128,8 +129,13 @@ declarations:
 - decl: const Cls &crefCls(int id)
 - decl: Cls valCls(int id)
 - decl: Color nextColor(Color c)
+- decl: int levelValue(Level lv)
 - decl: void over(int a)
 - decl: void over(double a)
+- decl: void pick(int a, double b = 0.5)
+  default_arg_suffix:
+  -
+  - _both
 - decl: int dflt(int a, int b = 2)
 - decl: |
     template<typename T> T tmpl(T a)
@@ -165,6 +171,7 @@ SCEN_HPP = r"""
 #define CEE_HPP
 #include <string>
 enum Color { RED, GREEN = 3, BLUE };
+enum Level { HIGH = 10, NONE = 0, LOW };
 class Cls {
     int m_id; std::string m_name;
 public:
@@ -187,6 +194,8 @@ Cls &refCls(int id);
 const Cls &crefCls(int id);
 Cls valCls(int id);
 Color nextColor(Color c);
+int levelValue(Level lv);
+void pick(int a, double b = 0.5);
 void over(int a);
 void over(double a);
 int dflt(int a, int b = 2);
@@ -226,7 +235,9 @@ Cls &refCls(int id) { vt_txt("RECV refCls id="); vt_i(id); vt_txt("\n"); return 
 const Cls &crefCls(int id) { vt_txt("RECV crefCls id="); vt_i(id); vt_txt("\n"); return *lib_objs[id % 2]; }
 Cls *newCls(int id) { vt_txt("RECV newCls id="); vt_i(id); vt_txt("\n"); return new Cls(id); }
 Cls valCls(int id) { vt_txt("RECV valCls id="); vt_i(id); vt_txt("\n"); return Cls(id); }
+int levelValue(Level lv) { vt_txt("RECV levelValue lv="); vt_i((int) lv); vt_txt("\n"); return 100 + (int) lv; }
 Color nextColor(Color c) { vt_txt("RECV nextColor c="); vt_i((int) c); vt_txt("\n"); return c == RED ? GREEN : c == GREEN ? BLUE : RED; }
+void pick(int a, double b) { vt_txt("RECV pick a="); vt_i(a); vt_txt(" b="); vt_d(b); vt_txt("\n"); }
 void over(int a) { vt_txt("RECV over(int) a="); vt_i(a); vt_txt("\n"); }
 void over(double a) { vt_txt("RECV over(double) a="); vt_d(a); vt_txt("\n"); }
 int dflt(int a, int b) { vt_txt("RECV dflt a="); vt_i(a); vt_txt(" b="); vt_i(b); vt_txt("\n"); return a * 10 + b; }
@@ -277,7 +288,7 @@ def scenario_case(args):
     T = P + "Cls"
     d = {"T": T, "P": P, "ctor": NC("ctor", ""), "dtor": NC("dtor", ""), "id": NC("id", ""), "add": NC("add", ""), "twice": NC("twice", ""),
          "rename": NC("rename", ""), "name": NC("name", ""), "whichc": NC("which", "_const"), "whichm": NC("which", "_mutable"), "takes": N("takes", ""), "find": N("findCls", ""), "new": N("newCls", ""), "ref": N("refCls", ""), "cref": N("crefCls", ""),
-         "val": N("valCls", ""), "next": N("nextColor", ""), "over0": N("over", "_0"), "over1": N("over", "_1"), "dflt0": N("dflt", "_0"),
+         "val": N("valCls", ""), "next": N("nextColor", ""), "level": N("levelValue", ""), "over0": N("over", "_0"), "over1": N("over", "_1"), "pick0": N("pick", ""), "pick1": N("pick", "_both"), "dflt0": N("dflt", "_0"),
          "dflt1": N("dflt", "_1"), "tint": N("tmpl", "_int"), "tdbl": N("tmpl", "_double"), "w0": N("weigh", "_0"), "w1": N("weigh", "_1"), "order": N("order", ""), "nsf": NN("nsf", ""),
          "innerf": NI("innerf", "")}
     drv = drv_c.C_PRELUDE + "\n".join('#include "%s"' % h for h in sorted(os.listdir(out)) if h.startswith("wrap") and h.endswith(".h")) + r"""
@@ -297,7 +308,9 @@ int main(void) {
   %(new)s(7, &r); printf("OBS new"); obs_i(%(id)s(&r)); obs_i(%(add)s(&r, 1)); printf("\n"); %(dtor)s(&r);
   %(val)s(8, &r); printf("OBS val"); obs_i(%(id)s(&r)); printf("\n"); %(dtor)s(&r);
   printf("OBS color"); obs_i(%(next)s(%(P)sRED)); obs_i(%(next)s(%(P)sGREEN)); obs_i(%(next)s(%(P)sBLUE)); printf("\n");
+  printf("OBS level"); obs_i(%(level)s(%(P)sHIGH)); obs_i(%(level)s(%(P)sNONE)); obs_i(%(level)s(%(P)sLOW)); printf("\n");
   %(over0)s(4); %(over1)s(-1.5);
+  %(pick0)s(6); %(pick1)s(7, 1.5);   /* a blank default_arg_suffix entry keeps the plain name for that variant (tutorial.yaml) */
   printf("OBS dflt"); obs_i(%(dflt0)s(3)); obs_i(%(dflt1)s(3, 4)); printf("\n");
   printf("OBS tmpl"); obs_i(%(tint)s(41)); obs_d(%(tdbl)s(1.25)); printf("\n");
   printf("OBS weigh"); obs_d(%(w0)s(3, 2.5)); obs_d(%(w1)s(4000000000L, 0.5f)); printf("\n");
@@ -309,7 +322,7 @@ int main(void) {
 """ % d
     open(os.path.join(out, "driver.c"), "w").write(drv)
     exp_obs = ["OBS ids 5 9", "OBS add 8 13 4", "OBS twice 42", "OBS names 0:[] 3:[bee]", "OBS which 1 2 1", "OBS find 100 101", "OBS ref 3:[zed] 3:[zed] 100", "OBS new 7 8", "OBS val 8",
-               "OBS color 3 4 0", "OBS dflt 32 34", "OBS tmpl 42 " + A.rnd(A.NATIVE["double"], 2.5),
+               "OBS color 3 4 0", "OBS level 110 100 101", "OBS dflt 32 34", "OBS tmpl 42 " + A.rnd(A.NATIVE["double"], 2.5),
                "OBS weigh %s %s" % (A.rnd(A.NATIVE["double"], 7.5), A.rnd(A.NATIVE["double"], 2e9)), "OBS ns 2 3"]
     D = A.NATIVE["double"]
     exp_recv = ["RECV Cls::Cls id=5", "RECV Cls::Cls id=9", "RECV Cls::add this=5 x=3", "RECV Cls::add this=9 x=4", "RECV Cls::add this=5 x=-1",
@@ -321,7 +334,8 @@ int main(void) {
                 "RECV newCls id=7", "RECV Cls::Cls id=7", "RECV Cls::add this=7 x=1", "RECV Cls::~Cls this=7",
                 "RECV valCls id=8", "RECV Cls::Cls id=8", "@copies", "RECV Cls::~Cls this=8",
                 "RECV nextColor c=0", "RECV nextColor c=3", "RECV nextColor c=4",
-                "RECV over(int) a=4", "RECV over(double) a=" + A.rnd(D, -1.5),
+                "RECV levelValue lv=10", "RECV levelValue lv=0", "RECV levelValue lv=1",
+                "RECV over(int) a=4", "RECV over(double) a=" + A.rnd(D, -1.5), "RECV pick a=6 b=" + A.rnd(D, 0.5), "RECV pick a=7 b=" + A.rnd(D, 1.5),
                 "RECV dflt a=3 b=2", "RECV dflt a=3 b=4", "RECV tmpl<int> a=41", "RECV tmpl<double> a=" + A.rnd(D, 1.25),
                 "RECV weigh<int,double> count=3 scale=" + A.rnd(D, 2.5), "RECV weigh<long,float> count=4000000000 scale=" + A.rnd(A.NATIVE["float"], 0.5),
                 "RECV order a=1 b=%s c=5:[three] d=1" % A.rnd(D, 2.5), "RECV order a=-1 b=%s c=0:[] d=0" % A.rnd(D, -2.5),
